@@ -122,13 +122,15 @@ CHECKS = {
  "C15": ("model_checking",
          "Generator.tla: Select(pool, limit) as the set of admissible payloads (TLC enumerates all pools of <= 3 transactions x outcomes x limits: 5 484 pools, 35 904 real selections compared); generator behaviours on top of Node.tla (Forge with crash, Recv, Switch to a better possibly shorter chain, Restart) with "
          "NoSelfContradiction, MhgLargestEver, PersistedBeforeHandoff, ForgeOutputAccepted (56 k states; control runs with the defective shapes must fail); scripts are replayed on a real generator.Generator wired to the real Executer and txpool, generator DB on a strict in-memory FS (crash at hand-off), every produced block processed by the same node, "
-         "all signed headers checked pairwise for contradiction. Verification answers are ok / invalid / pending; the aggregate commit of a generated block is covered by the C06 pool cases (whatever GetAggregateCommit assembles must pass the node's own verification, incl. validator-set changes with lagging certification).",
-         "Toy application; 3 validators; crash after hand-off is C13's subject.",
+         "all signed headers checked pairwise for contradiction. Verification answers are ok / invalid / pending; the aggregate commit of a generated block is covered by the C06 pool cases (whatever GetAggregateCommit assembles must pass the node's own verification, incl. validator-set changes with lagging certification). "
+         "Handover.tla: moving the validator to another node through the operator interface (setKeys / getStatus / setStatus / updateStatus of pkg/engine/endpoint + the persisted GeneratorInfo, restarts with plain keys): NoContradiction for every behaviour in which the operator follows the protocol (2.9 M states; controls: contradiction without the protocol, generation on two nodes reachable); "
+         "TLC behaviours drive two real nodes with the real endpoint and HandoverTrace.tla validates every answer, generated header and the generator's own stored info.",
+         "Toy application; 3 validators; crash after hand-off is C13's subject; hand-over on one linear chain (forks on one node are part (b)).",
          "TLC model checking of Generator.tla + replay of TLC scripts on the real generator / Executer / txpool", "DESIGN.md section 4 C15"),
  "C16": ("model_checking",
          "StateMachine.tla: application state over 2 stores x 3 keys, command scripts (writes, events, ok/fail), ExecuteTx / Commit (root = SMT.Tree of the state, deleted keys absent) / Revert / Crash+Restart; Atomic, EventsBookkeeping, RootFunctionOfState, RevertInverse checked exhaustively (243 k states quick, 4.9 M thorough); "
          "~25 k histories replayed on the real framework.ABIHandler + statemachine.Executer with a scripted module using the engine's exact call sequences; events, store contents, state-DB dumps and state roots (SHA-256 fold of the spec term) compared after every step. The module's BeforeCommandExecute hook writes state and logs a revertible event: both must survive a failing command (the state 'before the command ran' is the state after the hooks).",
-         "Genesis execution and applications more than one block ahead are not modelled; empty values not generated.",
+         "Genesis execution is not modelled; the application is at most three blocks ahead of the engine at a restart (Lose: the engine comes back one or two tips behind); empty values not generated.",
          "TLC model checking of StateMachine.tla + replay of TLC histories on the real ABIHandler", "DESIGN.md section 4 C16"),
  "C17": ("model_checking",
          "ReqResp.tla with implementation-shape constants (RegisterFirst, DeliverUnderLock, Buffered, TrySend): NoDeadlock, NoLostReply, Correlated, NoLeak, liveness under fairness checked exhaustively for the shape the traces exhibit and the safe shape (181 k states at 2 calls x 1 retry); "
